@@ -1,11 +1,119 @@
 # C11 The list library computes what its specification says
-import random
+import random, json
 from .common import *
 from . import scheme as S, machine as M, gen as G
 
 
 def sigs_fn(forms, tag):
     return [{"kind": "vector", "value": " ".join(S.render(f) for f in forms)}]
+
+
+# ---- pairs with identity (Pairs.tla / MCPairs.tla) --------------------------------------------
+PRELUDE = ["(define x1 (list 1 2))", "(define x2 (list 1 2))", "(define x3 (list x1 2))", "(define x4 (cons 1 x2))"]
+
+
+def operand(o):
+    if o["k"] == "var":
+        return "x%d" % o["i"]
+    return S.render_datum(o["v"]) if o["v"]["t"] != "nil" else "'()"
+
+
+def op_text(o):
+    k = o["op"]
+    if k in ("list2", "cons"):
+        return "(%s %s %s)" % ("list" if k == "list2" else "cons", operand(o["u"]), operand(o["w"]))
+    if k in ("car", "cdr", "last-pair"):
+        return "(%s x%d)" % (k, o["i"])
+    if k == "append":
+        return "(append x%d %s)" % (o["i"], operand(o["w"]))
+    if k == "list-tail":
+        return "(list-tail x%d %d)" % (o["i"], o["n"])
+    return "(%s %s x%d)" % (k, operand(o["u"]), o["i"])
+
+
+def is_pair(d):
+    return d["t"] == "pair"
+
+
+def pair_program(v):
+    """-> texts, expectations per text (None: a definition), index of the first text not to be judged.
+    Only procedures C11 lists are observed: the value of each new variable and equal? against every earlier one
+    (eq?/eqv? themselves are not among them, and Ruschm's pairs carry no identity that could be observed otherwise)."""
+    texts, exp = list(PRELUDE), [None] * len(PRELUDE)
+    for n, o in enumerate(v["ops"]):
+        k = len(PRELUDE) + n + 1
+        texts.append("(define x%d %s)" % (k, op_text(o))); exp.append(None)
+        texts.append("(list x%d %s)" % (k, " ".join("(equal? x%d x%d)" % (k, i) for i in range(1, k))))
+        # memq/memv asked to find a PAIR: the specification finds it by identity only
+        by_identity = o["op"] in ("memq", "memv") and o["u"]["k"] == "var" and is_pair(v["vals"][o["u"]["i"] - 1])
+        exp.append((v["vals"][k - 1], v["probes"][n], by_identity))
+    return texts, exp
+
+
+def pairs_stage(ctx, vecs, tag):
+    GROUP = 40
+    jobs = []
+    progs = [pair_program(v) for v in vecs]
+    for c in range(0, len(progs), GROUP):
+        steps = [{"op": "new", "i": 0, "natives": False}]
+        for texts, _ in progs[c:c + GROUP]:
+            steps += [{"op": "eval", "i": 0, "text": t} for t in texts]
+        jobs.append({"id": c, "kind": "session", "steps": steps})
+    res = run_jobs(jobs, ctx.dir, tag=tag, timeout=3000, job_timeout_ms=60000)
+    for j, r in zip(jobs, res):
+        if r.get("skipped"):
+            continue
+        rs = r["results"][1:]
+        pos = 0
+        for (texts, exp), v in zip(progs[j["id"]:j["id"] + GROUP], vecs[j["id"]:j["id"] + GROUP]):
+            outs = rs[pos:pos + len(texts)]; pos += len(texts)
+            ctx.count(evaluations=1, validated=1)
+            for t, e, o in zip(texts, exp, outs + [{"k": "notrun"}] * (len(texts) - len(outs))):
+                ob = S.to_spec_outcome(o)
+                why = None
+                if e is None:
+                    if ob.get("k") != "none":
+                        why = "%s -> %s" % (t, json.dumps(ob)[:200])
+                else:
+                    val, probes, by_identity = e
+                    want = S.vlist([val] + [S.vbool(p["equal"]) for p in probes])
+                    if ob.get("k") != "value" or not S.match(want, ob["v"]):
+                        why = "%s : the specification gives %s, the implementation %s" % (t, S.render_datum_loose(want), S.render_datum_loose(ob["v"]) if ob.get("k") == "value" else json.dumps(ob)[:200])
+                if why:
+                    text = " ".join(texts[len(PRELUDE):][::2])
+                    sigs = [{"kind": "vector", "value": "pairs: " + text}]
+                    if e is not None and e[2] and is_pair(e[0]):
+                        # the specification found the pair (by identity) and the implementation did not
+                        sigs.append({"kind": "input_class", "value": "memq-or-memv-of-a-pair-that-is-an-element-of-the-list"})
+                    ctx.violation(sigs, "after %s %s" % (" ".join(PRELUDE), why), {"stage": "pairs", "vec": v})
+                    break              # later forms of the program depend on this one
+
+
+def run_pairs(ctx, tier):
+    rb = run_tlc("MCPairs.tla", "MCPairs_broken.cfg", ctx.dir, workers=4, timeout=600)
+    if not rb.violation:
+        raise ToolError("the model in which memv compares structurally was not rejected")
+    ctx.stage("model-sensitivity", model="memv with equal?", rejected=True)
+    r = run_tlc("MCPairs.tla", "MCPairs_quick.cfg", ctx.dir, workers=12, timeout=3000)
+    require_clean(r, "MCPairs quick")
+    ctx.add_tlc(r, "MCPairs_quick (MemvLaw, AppendLaw, EquivLaw on every 2-operation program over the sharing prelude)")
+    vecs = sorted(r.vecs, key=lambda v: canon(v["ops"]))
+    seen = {canon(v["ops"]) for v in vecs}
+    walks = []
+    for k in range(2 if tier == "quick" else 8):
+        rs = run_tlc("MCPairs.tla", "MCPairs_sim.cfg", ctx.dir, tag="MCPairs_sim%d" % k, workers=1, timeout=600, simulate="num=%d" % (3 if tier == "quick" else 25),
+                     depth=8, seed=ctx.seed * 100 + k)
+        require_clean(rs, "MCPairs simulate")
+        ctx.add_tlc(rs, "simulate")
+        for v in rs.vecs:
+            if canon(v["ops"]) not in seen:
+                seen.add(canon(v["ops"])); walks.append(v)
+    pairs_stage(ctx, vecs + walks, "pairs")
+    for v in vecs + walks:
+        ctx.nontrivial_key(v["ops"])
+    # in simulation mode TLC evaluates the emitting invariant on every successor it generates, so one walk yields
+    # every 6-operation program that shares its first five operations
+    ctx.stage("pairs-identity", programs=len(vecs), walks=len(walks), exhaustive=True)
 
 
 def run(ctx):
@@ -33,10 +141,11 @@ def run(ctx):
         ctx.nontrivial_key(p)
     ctx.sample({"validated_calls": " ".join(S.render(f) for f in progs[0])[:600]})
     ctx.stage("validate", programs=n, mismatches=len(mism))
+    run_pairs(ctx, tier)
     ctx.assumptions += ["folds are given proper lists only (an improper list is outside their domain)",
-                        "equal?, memq, memv are specified on atoms and lists of them; eq?/eqv? on pairs is not constrained"]
+                        "in the value model (Machine.tla) eq?/eqv? on pairs is not constrained; identity of pairs is decided by the heap model Pairs.tla (freshly built lists only: the identity of quoted constants is left open by R7RS)"]
     return ctx.finish(rule="replay: every library procedure on every list of length <= 3 over 4 element kinds (proper, improper, nested) and every index -1..4, with ticking procedure arguments (Programs!ListFamily; ListLaw states the algebraic laws on the machine's results); "
-                           "validate: random arguments (lists to length 12, nesting 3) and random compositions of library calls checked by MachineTrace.tla; non-trivial = distinct call/program")
+                           "validate: random arguments (lists to length 12, nesting 3) and random compositions of library calls checked by MachineTrace.tla; pairs: every 2-operation program (list, cons, car, cdr, append, list-tail, last-pair, memq, memv) over a prelude of structurally equal but distinct lists, and simulate walks of 6 operations, each new object compared with every earlier one by eq?/eqv?/equal?; non-trivial = distinct call/program")
 
 
 def replay(ctx, case):
